@@ -26,4 +26,4 @@ LEVEL_TEXT = ("Lean 4 theorems over every list of particle arrays and every orde
               "to produce replays.")
 LEVEL_NOTE = ("Trusted: Lean kernel, axioms propext/Classical.choice/Quot.sound; the hand-written model (checked by "
               "the correspondence, 400+ cases and 200 op histories with state comparison after every op, quick); exact-field arithmetic with abstract monotone sqrt in place of "
-              "IEEE doubles; cyarray's minimum attribute modelled; serial CPU path only.")
+              "IEEE doubles; cyarray's minimum attribute modelled; CPU path only, MPI reduction replaced by a stand-in min over given offers.")
